@@ -180,23 +180,36 @@ func (d *dumper) irName(fn *ir.Function) string {
 
 // dumpFunction renders one function as records separated by " ; ".
 //
-//	F <name> <hasobj> <nres> {<ptrlike><iface>}*      header (result type flags, 2 digits each)
+//	F <name> <hasobj> <nparams> <nres> {<ptrlike><iface>}*  header (result type flags, 2 digits each)
 //	V <vid> <kind> <ptrlike><iface>                    value table (referenced values only)
 //	B <bid> succs=<..> preds=<..>
 //	I <bid> <kind> <args...>                           in block order
 //	U <reason>                                         function is outside the modelled subset
+//	N                                                  fn.Blocks == nil
+//	R {<inner><outer>}*                                Result.Nilness of the real analysis
 func (d *dumper) dumpFunction(fn *ir.Function) string {
 	var recs []string
 	unmodelled := []string{}
 	sig := fn.Signature
-	hdr := fmt.Sprintf("F %s %d %d", d.irName(fn), b2i(fn.Object() != nil), sig.Results().Len())
+	hdr := fmt.Sprintf("F %s %d %d %d", d.irName(fn), b2i(fn.Object() != nil), len(fn.Params), sig.Results().Len())
 	for i := 0; i < sig.Results().Len(); i++ {
 		t := sig.Results().At(i).Type()
 		hdr += fmt.Sprintf(" %d%d", b2i(typeutil.IsPointerLike(t)), b2i(types.IsInterface(t)))
 	}
 	recs = append(recs, hdr)
+	realRec := func() {
+		if obj, ok := fn.Object().(*types.Func); ok && obj != nil {
+			r := "R"
+			for i := 0; i < sig.Results().Len(); i++ {
+				vn := d.res.Nilness(obj, i)
+				r += fmt.Sprintf(" %d%d", vn.Inner, vn.Outer)
+			}
+			recs = append(recs, r)
+		}
+	}
 	if fn.Blocks == nil {
-		recs = append(recs, "U noblocks")
+		recs = append(recs, "N")
+		realRec()
 		return strings.Join(recs, " ; ")
 	}
 	if sig.TypeParams() != nil || sig.RecvTypeParams() != nil || len(fn.TypeArgs()) > 0 {
@@ -204,6 +217,9 @@ func (d *dumper) dumpFunction(fn *ir.Function) string {
 	}
 	if strings.HasPrefix(fn.Synthetic, "bound method wrapper") {
 		unmodelled = append(unmodelled, "boundwrapper")
+	}
+	if len(fn.FreeVars) > 0 && fn.Object() != nil {
+		unmodelled = append(unmodelled, "freevars")
 	}
 
 	ids := map[ir.Value]int{}
@@ -230,10 +246,15 @@ func (d *dumper) dumpFunction(fn *ir.Function) string {
 		case *ir.Global:
 			kind = "global"
 		case *ir.Const:
-			if v.Value == nil {
+			switch {
+			case v.Value == nil:
 				kind = "constnil"
-			} else {
-				kind = "const"
+			case v.Value.Kind() == constant.Int && constant.Sign(v.Value) == 0:
+				kind = "constz"
+			case v.Value.Kind() == constant.Int:
+				kind = "constnz"
+			default:
+				kind = "constother"
 			}
 		case *ir.AggregateConst:
 			kind = "aggconst"
@@ -291,7 +312,7 @@ func (d *dumper) dumpFunction(fn *ir.Function) string {
 			}
 			switch v := instr.(type) {
 			case *ir.Convert:
-				add("convert %s %s", vid(v), vid(v.X))
+				add("convert %s %s %d", vid(v), vid(v.X), b2i(fromInteger(v.X.Type())))
 			case *ir.ChangeType:
 				add("changetype %s %s", vid(v), vid(v.X))
 			case *ir.MultiConvert:
@@ -350,18 +371,18 @@ func (d *dumper) dumpFunction(fn *ir.Function) string {
 				toIface := types.IsInterface(v.Type()) && !typeparams.IsTypeParam(v.Type())
 				add("typeassert %s %s %d %d", vid(v), vid(v.X), b2i(v.CommaOk), b2i(toIface))
 			case *ir.TypeSwitch:
-				hasNil := false
 				flags := ""
 				for _, typ := range v.Conds {
 					if b, ok := typ.(*types.Basic); ok && b.Kind() == types.UntypedNil {
-						hasNil = true
+						flags += "n"
+					} else {
+						flags += "t"
 					}
-					flags += fmt.Sprint(b2i(types.IsInterface(typ) && !typeparams.IsTypeParam(typ)))
 				}
 				if flags == "" {
 					flags = "-"
 				}
-				add("typeswitch %s %s %d %s", vid(v), vid(v.Tag), b2i(hasNil), flags)
+				add("typeswitch %s %s %s", vid(v), vid(v.Tag), flags)
 			case *ir.MapLookup:
 				add("maplookup %s %s", vid(v), vid(v.X))
 			case *ir.Field:
@@ -413,15 +434,18 @@ func (d *dumper) dumpFunction(fn *ir.Function) string {
 	}
 	// what the real analysis says about this function (used by the model only for
 	// unmodelled functions; compared with the model's result for modelled ones)
-	if obj, ok := fn.Object().(*types.Func); ok && obj != nil {
-		r := "R"
-		for i := 0; i < sig.Results().Len(); i++ {
-			vn := d.res.Nilness(obj, i)
-			r += fmt.Sprintf(" %d%d", vn.Inner, vn.Outer)
-		}
-		recs = append(recs, r)
-	}
+	realRec()
 	return strings.Join(recs, " ; ")
+}
+
+// fromInteger mirrors the predicate of the same name in nilness.go (the model is told what
+// the analysis asks about the operand's type; a change of the predicate there shows up as
+// a difference between the real facts and the model's).
+func fromInteger(T types.Type) bool {
+	return typeutil.Any(T, func(term *types.Term) bool {
+		b, ok := term.Type().Underlying().(*types.Basic)
+		return ok && b.Info()&types.IsInteger != 0
+	})
 }
 
 func dedup(s []string) []string {
